@@ -74,6 +74,37 @@ def run(ctx):
             ctx.check(ok, "C10.1", lst[0][2], "accumulator filled as [chain so far, nested result]",
                       "accumulator filled in order %s" % kinds, f.loc(lst[0][0]))
     ctx.floor("C10.1", "concatenation sites", sites, 5)
+    # nothing of the followed chain is lost: in every arm that receives records from the follow-up resolution of an alias
+    # target, those records are concatenated onto the chain so far
+    LEAF = ("Authoritative", "NonAuthoritative", "Partial", "CNAME")
+    n_arms = 0
+    for root, own_q in fns.items():
+        f = prog.body_of(root)
+        r = A.Resolver(f)
+        c = A.Conds(f, r)
+        nested_apps = [b for b, t in A.vec_tail_appends(f) if classify(r.call_expr(t, b)[2][1], own_q) == "nested"]
+        arms_by_site = {}
+        for a in sorted(f.reachable(0)):
+            if f.term(a)["k"] != "switch":
+                continue
+            for s_ in f.succs(a):
+                for fct in c.edge_facts(a, s_):
+                    if fct[0] != "is" or fct[1] not in LEAF + ("Ok",):
+                        continue
+                    own, other = nested_calls(fct[2], own_q)
+                    if root.endswith("resolve_combined_recursive"):
+                        other = other + own          # its parameter `rrs` is the chain so far: its one nested resolution is the follow-up
+                    for x in other:
+                        arms_by_site.setdefault(x[3], []).append((fct[1], a, s_))
+        for site, arms in arms_by_site.items():
+            leaves = [x for x in arms if x[0] in LEAF] or [x for x in arms if x[0] == "Ok"]
+            for v, a, s_ in leaves:
+                n_arms += 1
+                dom = {b for b in f.reachable(s_) if f.edge_dominates(a, s_, b)}
+                ctx.check(any(b in dom for b in nested_apps), "C10.1", "%s:follow-up-records-kept:%s@%s" % (A.short(root), v, f.loc(a).split(":")[-1]),
+                          "the %s arm of the follow-up resolution appends its records to the chain" % v,
+                          "the records of the follow-up resolution are dropped in the %s arm (the chain returned ends early)" % v, f.loc(s_))
+    ctx.floor("C10.1", "arms receiving follow-up records", n_arms, 6)
     # resolve_combined_recursive: `rrs` (the chain) is its parameter; callers pass the chain found so far
     for fn, b, t in A.who_calls(prog, REC + "resolve_combined_recursive"):
         rr = A.Resolver(fn)
